@@ -124,6 +124,42 @@ theorem mapValues_ok (e : EnumDecl) (names : List String)
         congr 1
         cases hnv : (n == v) <;> cases hvn : (some v == some n) <;> simp_all
 
+/-- `mapValues` fails (with an error, never a panic) exactly when some name is not an option -/
+theorem mapValues_isErr (e : EnumDecl) (names : List String) :
+    (mapValues e names).isErr = !names.all (fun n => (e.numberOf n).isSome) ∧
+    (mapValues e names).isPanic = false := by
+  induction names with
+  | nil => exact ⟨rfl, rfl⟩
+  | cons x rest ih =>
+    cases hv : e.numberOf x with
+    | none =>
+      have hv' : lookupName e.valMap (addPrefix e.pfx x) = none := hv
+      simp [mapValues, hv', hv, Outcome.isErr, Outcome.isPanic]
+    | some v =>
+      have hv' : lookupName e.valMap (addPrefix e.pfx x) = some v := hv
+      obtain ⟨h1, h2⟩ := ih
+      cases hr : mapValues e rest with
+      | ok vs => simp [mapValues, hv', hv, hr, Outcome.isErr, Outcome.isPanic] at h1 ⊢; exact h1
+      | err t => simp [mapValues, hv', hv, hr, Outcome.isErr, Outcome.isPanic] at h1 ⊢; exact h1
+      | panic w => simp [hr, Outcome.isPanic] at h2
+
+/-- the enum branch of the compiler rejects exactly the inadmissible declarations: a name in
+`in` / `notIn` or a default filter of the list rules that is not an option of the enum
+(b6c593a added the default filters) -/
+theorem buildField_enum_isErr (d : EnumDecl) (rules : Option EnumRules) (lr : ListRules) :
+    (buildField (.enum d rules lr)).isErr = !schemaWF (.enum d rules lr) := by
+  have hf := mapValues_isErr d (lrDefaultFilters lr)
+  cases rules with
+  | none =>
+    simp only [buildField, schemaWF, enumFiltersWF, Bool.true_and]
+    cases hm : mapValues d (lrDefaultFilters lr) <;> simp_all [Outcome.isErr, Outcome.isPanic]
+  | some r =>
+    have h1 := mapValues_isErr d r.inn
+    have h2 := mapValues_isErr d r.notIn
+    simp only [buildField, schemaWF, enumFiltersWF, enumRulesWF]
+    cases hm1 : mapValues d r.inn <;> cases hm2 : mapValues d r.notIn <;>
+      cases hm : mapValues d (lrDefaultFilters lr) <;> simp_all [Outcome.isErr, Outcome.isPanic]
+
 def definedOfSchema : Schema → List Int
   | .enum d _ _ => d.defined
   | _ => []
@@ -207,18 +243,22 @@ theorem item_equiv (M : Matcher) (hM : ∀ x, M.run id62Pattern x = id62Shape x)
                validate := format.map fun f => ItemC.string (keyStringC f) },
              by simp only [buildField, hl], hp, hv⟩
   | enum decl rules lr =>
+    have hf : enumFiltersWF decl lr = true := by
+      cases rules <;> simp only [schemaWF, Bool.and_eq_true] at hwf <;> first | exact hwf.2 | simpa using hwf
+    obtain ⟨f, hfv, _, _⟩ := mapValues_ok decl (lrDefaultFilters lr) hf
     cases rules with
     | none =>
-      refine ⟨_, rfl, rfl, ?_⟩
+      refine ⟨{ kind := .enum decl, j5 := some .enum, list := lr.map .enum, psmKey := none,
+                validate := some (.enum (some true) [] []) }, by simp only [buildField, hfv], rfl, ?_⟩
       intro x hx
       cases x <;> simp [Scalar.hasKind, Schema.isMessage] at hx
       simp [evalOpt, evalItem, evalEnum, j5Item, optAll, definedOfSchema]
     | some r =>
       simp only [schemaWF, enumRulesWF, Bool.and_eq_true] at hwf
-      obtain ⟨a, ha, hae, hac⟩ := mapValues_ok decl r.inn hwf.1
-      obtain ⟨b, hb, _, hbc⟩ := mapValues_ok decl r.notIn hwf.2
+      obtain ⟨a, ha, hae, hac⟩ := mapValues_ok decl r.inn hwf.1.1
+      obtain ⟨b, hb, _, hbc⟩ := mapValues_ok decl r.notIn hwf.1.2
       refine ⟨{ kind := .enum decl, j5 := some .enum, list := lr.map .enum, psmKey := none,
-                validate := some (.enum (some true) a b) }, by simp only [buildField, ha, hb], rfl, ?_⟩
+                validate := some (.enum (some true) a b) }, by simp only [buildField, ha, hb, hfv], rfl, ?_⟩
       intro x hx
       cases x <;> simp [Scalar.hasKind, Schema.isMessage] at hx
       simp only [evalOpt, evalItem, evalEnum, hac, hbc, hae, j5Item, optAll, definedOfSchema]
